@@ -49,7 +49,47 @@ func ParseCase(line string) (*Case, error) {
 	if err := json.Unmarshal([]byte(inner), c); err != nil {
 		return nil, err
 	}
+	if Naming != nil {
+		c.Sp, c.Rd, c.Wr, c.Base, c.Clamp = renameSegs(c.Sp), renameSegs(c.Rd), renameSegs(c.Wr), renameSegs(c.Base), renameSegs(c.Clamp)
+		for i := range c.Stack {
+			c.Stack[i].Base = renameSegs(c.Stack[i].Base)
+		}
+	}
 	return c, nil
+}
+
+// Naming instantiates the model's abstract names (a, f, v) with concrete ones.  The second instantiation makes a
+// name start with the name of the disk root directory ("root" / "rootf"): code that confines paths by comparing
+// STRINGS instead of path segments lets such a sibling through.
+var Naming map[string]string
+
+func rn(x string) string {
+	if y, ok := Naming[x]; ok {
+		return y
+	}
+	return x
+}
+
+// RenamePath renames every segment of a slash-separated path.
+func RenamePath(p string) string {
+	return strings.Join(renameSegs(strings.Split(p, "/")), "/")
+}
+
+func renameSegs(p []string) []string {
+	if p == nil {
+		return nil
+	}
+	out := make([]string, len(p))
+	for i, x := range p {
+		out[i] = rn(x)
+	}
+	return out
+}
+
+// SetNaming installs a naming and rebuilds the populated tree with it.
+func SetNaming(m map[string]string) {
+	Naming = m
+	Population = population()
 }
 
 // World is a populated root with a view stack on top.
@@ -76,20 +116,21 @@ func (w *World) Close() {
 func population() map[string]string {
 	out := map[string]string{}
 	prefix := ""
+	a, f, v := rn("a"), rn("f"), rn("v")
 	for lvl := 0; lvl <= 3; lvl++ {
 		if lvl > 0 {
 			out[strings.TrimSuffix(prefix, "/")] = "D"
 		}
 		if lvl%2 == 0 {
-			out[prefix+"a"] = "C:" + prefix + "a"
-			out[prefix+"f"] = "D"
-			out[prefix+"f/a"] = "C:" + prefix + "f/a"
+			out[prefix+a] = "C:" + prefix + a
+			out[prefix+f] = "D"
+			out[prefix+f+"/"+a] = "C:" + prefix + f + "/" + a
 		} else {
-			out[prefix+"a"] = "D"
-			out[prefix+"a/f"] = "C:" + prefix + "a/f"
-			out[prefix+"f"] = "C:" + prefix + "f"
+			out[prefix+a] = "D"
+			out[prefix+a+"/"+f] = "C:" + prefix + a + "/" + f
+			out[prefix+f] = "C:" + prefix + f
 		}
-		prefix += "v/"
+		prefix += v + "/"
 	}
 	return out
 }
@@ -113,10 +154,10 @@ func Build(stack []Layer, tmp string) (*World, error) {
 		}
 		w.RootDir = filepath.Join(w.Host, "root")
 		os.MkdirAll(w.RootDir, 0777)
-		ioutil.WriteFile(filepath.Join(w.Host, "a"), []byte("HOST-OUTSIDE-a"), 0644)
-		os.MkdirAll(filepath.Join(w.Host, "f"), 0777)
-		ioutil.WriteFile(filepath.Join(w.Host, "f", "a"), []byte("HOST-OUTSIDE-f/a"), 0644)
-		os.MkdirAll(filepath.Join(w.Host, "v"), 0777)
+		ioutil.WriteFile(filepath.Join(w.Host, rn("a")), []byte("HOST-OUTSIDE-a"), 0644)
+		os.MkdirAll(filepath.Join(w.Host, rn("f")), 0777)
+		ioutil.WriteFile(filepath.Join(w.Host, rn("f"), rn("a")), []byte("HOST-OUTSIDE-f/a"), 0644)
+		os.MkdirAll(filepath.Join(w.Host, rn("v")), 0777)
 		host := w.Host
 		w.cleanup = func() { os.RemoveAll(host) }
 		if w.Root, err = diskfs.NewFilespace(w.RootDir); err != nil {
@@ -432,8 +473,8 @@ func DoMut(fs FS, op string, p string) (panicked string) {
 		}
 	case "sub-removeall":
 		if sub, err := fs.Filespace(p); err == nil && sub != nil {
-			sub.RemoveAll("a")
-			sub.RemoveAll("../a")
+			sub.RemoveAll(rn("a"))
+			sub.RemoveAll("../" + rn("a"))
 			sub.RemoveAll("..")
 		}
 	}
